@@ -200,13 +200,15 @@ type Interp struct {
 	IsLog    func(*ssa.CallCommon) bool
 	InScope  func(*ssa.Function) bool
 	GoInline bool     // run goroutines synchronously at their go statement
+	// OnGo, when set, is told when an inlined goroutine starts (enter) and when it has run to completion
+	OnGo func(g *ssa.Go, enter bool)
 	Trace    []string // branch decisions, for witnesses
 	Deferred [][]func()
 	CurFn    Value // for dynamic calls: the evaluated function value, visible to Oracle.Call
 }
 
 func New(o Oracle) *Interp {
-	return &Interp{O: o, Fuel: 200000, MaxDepth: 6, globals: map[*ssa.Global]Value{}}
+	return &Interp{O: o, Fuel: 200000, MaxDepth: 14, globals: map[*ssa.Global]Value{}}
 }
 
 // Choose consumes one nondeterministic choice in [0,n).
@@ -431,7 +433,13 @@ func (ip *Interp) CallFunction(fn *ssa.Function, args []Value, bind []Value) Val
 				// sequential schedule: the goroutine runs to completion at its go statement (only for properties
 				// that do not depend on the interleaving)
 				args, _ := ip.evalArgs(f, x.Common())
+				if ip.OnGo != nil {
+					ip.OnGo(x, true)
+				}
 				ip.call(f, x, args)
+				if ip.OnGo != nil {
+					ip.OnGo(x, false)
+				}
 			case *ssa.Defer:
 				args, _ := ip.evalArgs(f, x.Common())
 				site := x
@@ -525,6 +533,7 @@ func constVal(k *ssa.Const) Value {
 		case *types.Struct:
 			z := NewTok("zero:"+k.Type().String(), "zero")
 			z.Attr["zeroed"] = Bool(true) // every field reads as its zero value
+			z.Attr["gotype"] = types.NewPointer(k.Type())
 			return z
 		}
 		return Nil{}
@@ -793,7 +802,7 @@ func (ip *Interp) call(f *frame, site ssa.CallInstruction, args []Value) Value {
 			cl := ip.eval(f, com.Value).(*Closure)
 			return ip.CallFunction(cl.Fn, args, cl.Bind)
 		}
-		if cal.Blocks != nil && (ip.InScope == nil || ip.InScope(cal)) && ip.depth <= ip.MaxDepth {
+		if cal.Blocks != nil && (ip.InScope == nil || ip.InScope(cal) || isThunk(cal)) && ip.depth <= ip.MaxDepth {
 			return ip.CallFunction(cal, args, nil)
 		}
 		undecided("call of %s not modelled", cal)
@@ -803,7 +812,7 @@ func (ip *Interp) call(f *frame, site ssa.CallInstruction, args []Value) Value {
 	case *Closure:
 		return ip.CallFunction(fv.Fn, args, fv.Bind)
 	case *ssa.Function:
-		if fv.Blocks != nil && (ip.InScope == nil || ip.InScope(fv)) {
+		if fv.Blocks != nil && (ip.InScope == nil || ip.InScope(fv) || isThunk(fv)) {
 			return ip.CallFunction(fv, args, nil)
 		}
 		undecided("call of %s not modelled", fv)
@@ -1527,4 +1536,9 @@ func Equal(a, b Value) (eq, known bool) {
 		}
 	}
 	return false, false
+}
+
+// isThunk: a synthetic forwarder the compiler made for a method expression or a bound method value.
+func isThunk(fn *ssa.Function) bool {
+	return strings.HasPrefix(fn.Synthetic, "thunk for") || strings.HasPrefix(fn.Synthetic, "bound method wrapper")
 }
